@@ -33,10 +33,7 @@ def campaign(tier, seed):
         n = extract_cases(mc_out, cases)
         os.remove(mc_out)
         trace = st.path("trace.ndjson")
-        rc, out, _ = sh([BIN, "comp", "--cases", cases, "--out", trace], timeout=3000)
-        if rc != 0:
-            raise ToolError("harness failed: " + out[-2000:])
-        hstat = json.loads(out.strip().splitlines()[-1])
+        hstat, aborts = run_harness(lambda c, t, tag: [[BIN, "comp", "--cases", c, "--out", t]], cases, trace, chunk=8000, par=6)
         tv_out = st.path("tv.out")
         tv = run_tlc_trace("CompTrace", os.path.join(SPEC, "CompTrace.cfg"), trace, tv_out, workers=3, chunk=30000, par=5, timeout=6000)
         if not tv["ok"]:
@@ -46,6 +43,7 @@ def campaign(tier, seed):
             r = {"c": v["c"], "tr": v["tr"], "depth": v["depth"], "size": v["size"]}
             r.update(v.get("d", {}))
             recs.append(r)
+        recs += aborts
         os.remove(tv_out)
         samples = []
         with open(cases) as f:
